@@ -23,7 +23,7 @@ PROP = dict(
         "WHILE bodies in generated histories contain at most one, idempotent, data-changing statement (its effect is measured after the loop)",
         "documented deviation outside the property (DESIGN.md section 5, C16): the manual says an out-of-range FETCH sets the variables to NULL, the code leaves them unchanged -- the model follows the code",
     ],
-    level_text="Proof: 25 Coq theorems/examples (Properties/C16.v) about an executable model of Cursor/CursorMap (cursor.go), the cursor lookup through block scopes (reference_scope.go), FetchCursor (query.go: number evaluation, arity check, assignment loop), WhileInCursor (processor.go) and the cursor status expressions (eval.go), over ALL histories of DECLARE/OPEN/FETCH/CLOSE/DISPOSE/status/WHILE IN/block entry+exit/data changes, all result sizes and all position arguments: fetch_spec (new pointer = clamp(target) in [-1,len], a record is delivered iff the target is a row index and it is that row of the view; proved for exact arithmetic, REFUTED for the code's wrapping int addition by FETCH RELATIVE near +-2^63, proved for the code whenever pointer+number stays in int64), the invariant -1 <= pointer <= len for every reachable state (induction over fold_left of arbitrary operation lists incl. loops), snapshot (after a successful OPEN the cursor holds the result its query had then; through any history that does not open/close/dispose/redeclare it or leave its block -- with arbitrary data changes interleaved -- the view is unchanged and every fetched record is a row of it), while_in_visits_all (from a fresh cursor: the visited rows are always a prefix of the result in order, exactly all len rows when the loop ends without error, never out of fuel; bodies that only change data never fail), status_agrees (COUNT = len, IS OPEN, IS IN RANGE = -1<idx<len after a fetch through any cursor-keeping history, UNKNOWN before any fetch), errors (undeclared / closed / open twice / redeclared / pseudo: the stated error and the state, variables included, untouched). Tie: histories of 8-25 statements on one transaction through parser.Parse + Processor.ExecuteStatement (file table + temporary table, prepared-statement cursors, nested blocks, pseudo cursors, loops with bodies, INSERT/UPDATE/DELETE/ROLLBACK/COMMIT interleaved) are replayed statement by statement on the model inside Coq (error class, status value, variables, visited rows), and additionally on the exact-arithmetic specification.",
+    level_text="Proof: 28 Coq theorems/examples (Properties/C16.v) about an executable model of Cursor/CursorMap (cursor.go), the cursor lookup through block scopes (reference_scope.go), FetchCursor (query.go: number evaluation, arity check, assignment loop), WhileInCursor (processor.go) and the cursor status expressions (eval.go), over ALL histories of DECLARE/OPEN/FETCH/CLOSE/DISPOSE/status/WHILE IN/block entry+exit/data changes, all result sizes and all position arguments: fetch_spec (new pointer = clamp(target) in [-1,len], a record is delivered iff the target is a row index and it is that row of the view; proved for exact arithmetic, REFUTED for the code's wrapping int addition by FETCH RELATIVE near +-2^63, proved for the code whenever pointer+number stays in int64), the invariant -1 <= pointer <= len for every reachable state (induction over fold_left of arbitrary operation lists incl. loops), snapshot (after a successful OPEN the cursor holds the result its query had then; through any history that does not open/close/dispose/redeclare it or leave its block -- with arbitrary data changes interleaved -- the view is unchanged and every fetched record is a row of it), while_in_visits_all (from a fresh cursor: the visited rows are always a prefix of the result in order, exactly all len rows when the loop ends without error, never out of fuel; bodies that only change data never fail), status_agrees (COUNT = len, IS OPEN, IS IN RANGE = -1<idx<len after a fetch through any cursor-keeping history, UNKNOWN before any fetch), errors (undeclared / closed / open twice / redeclared / pseudo: the stated error and the state, variables included, untouched). Tie: histories of 8-25 statements on one transaction through parser.Parse + Processor.ExecuteStatement (file table + temporary table, prepared-statement cursors, nested blocks, pseudo cursors, loops with bodies, INSERT/UPDATE/DELETE/ROLLBACK/COMMIT interleaved) are replayed statement by statement on the model inside Coq (error class, status value, variables, visited rows), and additionally on the exact-arithmetic specification.",
     level_note="Trusted: Coq kernel + vm_compute; Go harness; the query results handed to the model are measured with query.Select (csvq's SELECT is C03's subject); Coq primitive floats only for ToInteger of float/text FETCH numbers. Known finding relative-overflow (FETCH RELATIVE n with pointer+n outside int64 wraps) is kept bug-compatible in the model and reported as KNOWN-FINDING.",
     design_ref="DESIGN.md section 5 (C16)",
     technique="Coq theorems (induction over operation histories, frame lemmas over block stacks, loop invariants) on an executable Gallina model + vm_compute replay of histories executed on the Go implementation",
